@@ -15,12 +15,23 @@ ROOT = os.path.dirname(os.path.dirname(os.path.abspath(__file__)))
 ENV = dict(os.environ, GOFLAGS="-mod=mod", GOPROXY="off", GOSUMDB="off", GOTOOLCHAIN="local")
 
 
-def sh(cmd, cwd=None, env=ENV, timeout=1800):
-    p = subprocess.run(cmd, cwd=cwd, env=env, stdout=subprocess.PIPE, stderr=subprocess.STDOUT, universal_newlines=True, timeout=timeout)
+def sh(cmd, cwd=None, env=None, timeout=1800):
+    p = subprocess.run(cmd, cwd=cwd, env=ENV if env is None else env, stdout=subprocess.PIPE, stderr=subprocess.STDOUT, universal_newlines=True, timeout=timeout)
     return p.returncode, p.stdout
 
 
-def confirm(prop, patch, demo, demo_dir, test_re):
+def confirm(prop, patch, demo, demo_dir, test_re, race=False):
+    global ENV
+    saved = ENV
+    if race:
+        ENV = dict(ENV, CGO_ENABLED="1")
+    try:
+        return _confirm(prop, patch, demo, demo_dir, test_re, ["-race"] if race else [])
+    finally:
+        ENV = saved
+
+
+def _confirm(prop, patch, demo, demo_dir, test_re, extra):
     wt = tempfile.mkdtemp(prefix="seedconfirm-")
     os.rmdir(wt)
     res = {"property": prop}
@@ -29,7 +40,7 @@ def confirm(prop, patch, demo, demo_dir, test_re):
         assert rc == 0, out
         dst = os.path.join(wt, demo_dir, os.path.basename(demo))
         shutil.copyfile(demo, dst)
-        rc, out = sh(["go", "test", "-vet=off", "-count=1", "-run", test_re, "./" + demo_dir], cwd=wt)
+        rc, out = sh(["go", "test", "-vet=off", "-count=1"] + extra + ["-run", test_re, "./" + demo_dir], cwd=wt)
         res["demo_passes_on_clean_tree"] = rc == 0
         res["clean_out"] = out[-600:]
         os.remove(dst)
@@ -46,7 +57,7 @@ def confirm(prop, patch, demo, demo_dir, test_re):
         if rc != 0:
             res["suite_out"] = out[-1500:]
         shutil.copyfile(demo, dst)
-        rc, out = sh(["go", "test", "-vet=off", "-count=1", "-run", test_re, "./" + demo_dir], cwd=wt)
+        rc, out = sh(["go", "test", "-vet=off", "-count=1"] + extra + ["-run", test_re, "./" + demo_dir], cwd=wt)
         res["demo_fails_with_patch"] = rc != 0
         res["mutant_out"] = out[-900:]
     finally:
